@@ -123,7 +123,8 @@ class CollisionMachine(Machine):
     PROP = "C14"
     MAX_STEPS = 12
     MUTATORS = frozenset({"write_generation", "writer_step", "writer_finish", "tear", "unlink",
-                          "lfs_pointer", "load_solver", "change_basis", "new_solver"})
+                          "lfs_pointer", "load_solver", "change_basis", "new_solver",
+                          "update_particles", "regrid", "poly"})
     OBSERVERS = frozenset({"load_solver", "load_direct", "change_basis", "interpolate"})
     RULE = (
         "one history = one scratch collision directory + one BoltzmannSolver; up to 12 steps "
@@ -158,12 +159,14 @@ class CollisionMachine(Machine):
         "quick": {"faultFired": ["missing_file", "mixed_size", "oversized_target", "torn_file",
                                  "lfs_pointer", "eio_on_open", "writer_interleaved"],
                   "probes": ["load_ok_same_size", "load_ok_interpolated", "load_ok_P>1_interpolated",
-                             "previous_array_kept", "basis_changed", "interpolate_op"]},
+                             "previous_array_kept", "basis_changed", "interpolate_op",
+                             "particle_list_changed", "solver_regridded",
+                             "interleaved_plain_basis_change"]},
     }
     REQUIRED_REACH["thorough"] = REQUIRED_REACH["quick"]
     OPS = ("write_generation", "writer_step", "writer_finish", "tear", "unlink", "lfs_pointer",
            "arm_eio", "arm_interleave", "load_solver", "load_direct", "change_basis",
-           "interpolate", "new_solver")
+           "interpolate", "new_solver", "update_particles", "regrid", "poly")
     POSSIBLE_BIGRAMS = len(OPS) * (len(OPS) + 1)
 
     # ------------------------------------------------------------------ config
@@ -226,6 +229,7 @@ class CollisionMachine(Machine):
         self.interleaved = False
         self.eioFired = False
         self.overwrittenDuringLoad: dict = {}
+        self.solverNames = list(self.names)
         self.solver = self._newSolver(cfg["solverN"], cfg["solverBasis"])
         self.solverN = cfg["solverN"]
         self.solverBasis = cfg["solverBasis"]
@@ -342,6 +346,15 @@ class CollisionMachine(Machine):
             return {"op": op, "N": rng.choice(smaller or SIZES)}
         if op == "new_solver":
             return {"op": op, "N": rng.choice(SIZES), "basis": rng.choice(BASES)}
+        if op == "update_particles":
+            k = rng.randint(1, len(self.names))
+            return {"op": op, "subset": sorted(rng.sample(range(len(self.names)), k))}
+        if op == "regrid":
+            return {"op": op, "N": rng.choice(SIZES)}
+        if op == "poly":
+            return {"op": op, "N": rng.choice([self.solverN, rng.choice(SIZES)]),
+                    "src": rng.choice(BASES), "dst": rng.choice(BASES),
+                    "seed": rng.randrange(1000)}
         raise HarnessError(op)
 
     def simplerSteps(self, step: dict):
@@ -426,8 +439,43 @@ class CollisionMachine(Machine):
     def _op_new_solver(self, step: dict) -> Any:
         self.solver = self._newSolver(int(step["N"]), step["basis"])
         self.solverN, self.solverBasis = int(step["N"]), step["basis"]
+        self.solverNames = list(self.names)
         self.installed = None
         return ["new-solver"]
+
+    def _op_update_particles(self, step: dict) -> Any:
+        """public setter of the solver's particle list; an installed array stays"""
+        subset = [i for i in step["subset"] if i < len(self.names)]
+        if not subset:
+            raise Skip()
+        self.solverNames = [self.names[i] for i in subset]
+        self.solver.updateParticleList([self.particles[i] for i in subset])
+        self.ctx.probes["particle_list_changed"] += 1
+        return ["particles", self.solverNames]
+
+    def _op_regrid(self, step: dict) -> Any:
+        """the solver's public grid attribute is replaced (what a user does to
+        change the momentum grid size); an installed array stays"""
+        self.solver.grid = self._grid(int(step["N"]))
+        self.solverN = int(step["N"])
+        self.ctx.probes["solver_regridded"] += 1
+        return ["regrid", self.solverN]
+
+    def _op_poly(self, step: dict) -> Any:
+        """an unrelated plain basis change of a distribution-like polynomial on the
+        same kind of grid, exactly what BoltzmannSolver.getDeltas does between
+        collision operations (interleaved library call)"""
+        N = int(step["N"])
+        # on the solver's own grid OBJECT when the size matches (getDeltas uses
+        # self.grid, the very object the collision array lives on)
+        grid = self.solver.grid if N == self.solverN else self._grid(N)
+        rng = np.random.default_rng(int(step["seed"]))
+        coeffs = rng.normal(size=(1, self.cfg["M"] - 1, N - 1, N - 1))
+        poly = self.WallGo.Polynomial(coeffs, grid, ("Array", "Cardinal", step["src"], step["src"]),
+                                      ("Array", "z", "pz", "pp"), False)
+        poly.changeBasis(("Array", "Cardinal", step["dst"], step["dst"]))
+        self.ctx.probes["interleaved_plain_basis_change"] += 1
+        return ["poly", np.asarray(poly.coefficients)]
 
     # -- classification of the directory for a load of `names`
     def _classify(self, names: list, NT: int, interp: bool) -> tuple[str, str]:
@@ -477,11 +525,12 @@ class CollisionMachine(Machine):
     def _op_load_solver(self, step: dict) -> Any:
         before = self.solver.collisionArray
         beforeDigest = self._contentDigest(before)
-        strength, cls = self._classify(self.names, self.solverN, True)
+        strength, cls = self._classify(self.solverNames, self.solverN, True)
         snapshot = {p: self.disk.get(p) for p in self.pairs}
         status, res = self._load(lambda: self.solver.loadCollisions(self.dir))
-        return self._judgeLoad("load_solver", status, res, strength, cls, snapshot, self.names,
-                               self.solverN, self.solverBasis, before, beforeDigest, True)
+        return self._judgeLoad("load_solver", status, res, strength, cls, snapshot,
+                               self.solverNames, self.solverN, self.solverBasis, before,
+                               beforeDigest, True)
 
     def _op_load_direct(self, step: dict) -> Any:
         names = self.names[:1] if step.get("subset") and len(self.names) > 1 else self.names
